@@ -415,6 +415,12 @@ impl Engine for HashMapEngine {
         if let Err((what, d)) = crate::plain::hashmap_plain(case.ops.len() as u64 * 7919 + case.init_cap as u64 + case.universe.iter().sum::<u64>(), obs) {
             return Verdict::violation(format!("C12:{what}"), d);
         }
+        let pseed = case.ops.len() as u64 * 104729 + case.init_cap as u64 + case.universe.iter().sum::<u64>();
+        for r in [crate::plain::hashmap_droppy_keys(pseed, obs), crate::plain::hashmap_overaligned(pseed, obs)] {
+            if let Err((what, d)) = r {
+                return Verdict::violation(format!("C12:{what}"), d);
+            }
+        }
         if case.proxy_alloc {
             let mk = || {
                 let a = CaoLangAllocator::new(std::ptr::null_mut(), 1 << 30);
